@@ -1,4 +1,5 @@
 import TmcgProofs.DkgKeyBase
+import TmcgProofs.DkgKeySim7
 /-
   C15: "all honest parties agree on the public key", success of `Generate`, consistency of the shares
   with the verification keys and with the key, for EVERY deviation script of at most `t` parties
@@ -15,11 +16,32 @@ open Tmcg Tmcg.Powm Tmcg.Dkg Tmcg.Grp Tmcg.DkgL
 
 variable {G : Dkg.Grp} [Fact (Nat.Prime G.p.natAbs)]
 
+set_option linter.unusedSectionVars false
+set_option linter.unusedVariables false
+
+/-- `y = ∏_{j ∈ QUAL} g^{f_j(0)}` for a party in the final state -/
+theorem key_val {n t : Nat} {ins : List PartyIn} (S : SetupK G n t ins)
+    (fam : Nat → Polynomial (ZMod G.q.natAbs)) (Q : List Nat) (Afl : List (List Int)) (hqlt : ∀ j ∈ Q, j < n)
+    (hfeld : ∀ j ∈ Q, (∀ k, k < t + 1 → cp G (getI (getRow Afl j) k) = cp G G.g ^ ((fam j).coeff k).val) ∧
+      ∀ x : Nat, powProdFrom x 0 ((getRow Afl j).map (cp G)) =
+        cp G G.g ^ ((fam j).eval ((x : Nat) : ZMod G.q.natAbs)).val)
+    (i : Nat) (P : Party GenSt) (hF : FinK G n t ins fam Q Afl i P) :
+    cp G P.st.y = (Q.map (fun j => cp G G.g ^ ((fam j).eval 0).val)).prod := by
+  have hG := S.hG
+  rw [hF.y, kg_yFold_val hG, cp_one, one_mul]
+  congr 1
+  apply List.map_congr_left
+  intro j hj
+  rw [hF.yi, (ra_yiFold (fun j => getI (getRow Afl j) 0) Q (zeros n) j).2 hj (by simp [zeros, hqlt j hj]),
+    (hfeld j hj).1 0 (by omega), Polynomial.coeff_zero_eq_eval_zero]
+
 theorem generate_succeeds {n t : Nat} {ins : List PartyIn} (S : SetupK G n t ins)
     (fam : Nat → Polynomial (ZMod G.q.natAbs)) (hB : BindingHypG G n t ins fam)
     (i : Nat) (hi : i ∈ honestIdx ins) :
     ∃ P, (runGen G n t ins)[i]? = some P ∧ P.status = .ret true := by
-  sorry
+  obtain ⟨Q, Afl, -, -, -, -, -, hall⟩ := kg_outcome S fam hB
+  obtain ⟨P, hP, hF⟩ := hall i hi
+  exact ⟨P, hP, hF.status⟩
 
 theorem key_agree {n t : Nat} {ins : List PartyIn} (S : SetupK G n t ins)
     (fam : Nat → Polynomial (ZMod G.q.natAbs)) (hB : BindingHypG G n t ins fam)
@@ -28,14 +50,64 @@ theorem key_agree {n t : Nat} {ins : List PartyIn} (S : SetupK G n t ins)
     P.st.qual = P'.st.qual ∧ P.st.y = P'.st.y ∧
     (∀ k ∈ P.st.qual, getI P.st.vi k = getI P'.st.vi k) ∧
     cp G P.st.y = (P.st.qual.map (fun j => cp G G.g ^ ((fam j).eval 0).val)).prod := by
-  sorry
+  obtain ⟨Q, Afl, hqnd, hqlt, hqh, hfeld, hdeg, hall⟩ := kg_outcome S fam hB
+  obtain ⟨P1, hP1, hF⟩ := hall i hi
+  obtain ⟨P2, hP2, hF'⟩ := hall i' hi'
+  rw [Option.some.inj (hP.symm.trans hP1)]
+  rw [Option.some.inj (hP'.symm.trans hP2)]
+  have hyi : P1.st.yi = P2.st.yi := hF.yi.trans hF'.yi.symm
+  refine ⟨hF.qual.trans hF'.qual.symm, ?_, ?_, ?_⟩
+  · rw [hF.y, hF'.y, hyi]
+  · intro k _
+    have := hF.vi.symm.trans hF'.vi
+    rw [Except.ok.inj this]
+  · rw [hF.qual]
+    exact key_val S fam Q Afl hqlt hfeld i P1 hF
 
 theorem share_matches_vk_run' {n t : Nat} {ins : List PartyIn} (S : SetupK G n t ins)
     (fam : Nat → Polynomial (ZMod G.q.natAbs)) (hB : BindingHypG G n t ins fam)
     (i : Nat) (hi : i ∈ honestIdx ins) (P : Party GenSt) (hP : (runGen G n t ins)[i]? = some P) :
     (∃ r, fspowm G.tabG G.g P.st.x G.p = .ok r ∧ r = getI P.st.vi i) ∧
     genCheckKey G P.st = .ok true := by
-  sorry
+  have hG := S.hG
+  have hq : 0 < G.q := hG.vg.q_pos
+  have : Fact (Nat.Prime G.q.natAbs) := fact_q hG
+  obtain ⟨Q, Afl, hqnd, hqlt, hqh, hfeld, hdeg, hall⟩ := kg_outcome S fam hB
+  obtain ⟨P1, hP1, hF⟩ := hall i hi
+  rw [Option.some.inj (hP.symm.trans hP1)]
+  have hiQ : i ∈ Q := hqh i hi
+  have hi1 : i < n := hqlt i hiQ
+  -- `g^{x_i}`
+  obtain ⟨hxc, hx0, hx1⟩ := sumMod_val (G := G) hq P1.st.s Q
+  rw [← hF.x] at hxc hx0 hx1
+  obtain ⟨r, hr, r0, r1, rv⟩ := fspowm_g hG P1.st.x (natAbs_lt_of_range ⟨hx0, hx1⟩)
+  -- `v_i`
+  obtain ⟨-, -, hfold⟩ := ra_viFold (fun jt => viOf G Q Afl jt) Q (zeros n) P1.st.vi hF.vi i
+  obtain ⟨v, hv, hget⟩ := hfold hiQ hqnd (by simp [zeros, hi1])
+  obtain ⟨v', hv', v0, v1, vv⟩ := kg_viOf_val hG Q Afl i
+  rw [hv'] at hv
+  have hvv' := Except.ok.inj hv
+  subst hvv'
+  have hprod := prod_feldman_at hG t Q Afl fam (fun j hj x => (hfeld j hj).2 x) (i + 1)
+  have hsum := sum_shares_val (G := G) hq Q P1.st.s i fam hF.sfam
+  rw [← hF.x] at hsum
+  have hpt : ∀ j, (fam j).eval (pt G.q i) = (fam j).eval (((i + 1 : Nat)) : ZMod G.q.natAbs) := by
+    intro j
+    congr 1
+    unfold pt
+    push_cast
+    rfl
+  have hrv : r = v' := by
+    apply cp_inj hG ⟨r0, r1⟩ ⟨v0, v1⟩
+    rw [rv, vv, hprod, ka_gexp_cq hG, hsum]
+    congr 3
+    apply List.map_congr_left
+    intro j _
+    exact hpt j
+  refine ⟨⟨r, hr, by rw [hrv, hget]⟩, ?_⟩
+  unfold genCheckKey
+  simp only [hr, hF.hi, hget, hrv, hF.own, bind, Except.bind, pure, Except.pure]
+  simp
 
 theorem interpolate_run {n t : Nat} {ins : List PartyIn} (S : SetupK G n t ins)
     (fam : Nat → Polynomial (ZMod G.q.natAbs)) (hB : BindingHypG G n t ins fam)
@@ -44,6 +116,36 @@ theorem interpolate_run {n t : Nat} {ins : List PartyIn} (S : SetupK G n t ins)
     (hxs : ∀ k ∈ parties, ∃ Pk, (runGen G n t ins)[k]? = some Pk ∧ xs k = Pk.st.x)
     (i : Nat) (hi : i ∈ honestIdx ins) (P : Party GenSt) (hP : (runGen G n t ins)[i]? = some P) :
     ∃ v, lagrange0 G.q parties xs = some v ∧ 0 ≤ v ∧ v < G.q ∧ cp G G.g ^ v = cp G P.st.y := by
-  sorry
+  have hG := S.hG
+  have hq : 0 < G.q := hG.vg.q_pos
+  have : Fact (Nat.Prime G.q.natAbs) := fact_q hG
+  obtain ⟨Q, Afl, hqnd, hqlt, hqh, hfeld, hdeg, hall⟩ := kg_outcome S fam hB
+  obtain ⟨P1, hP1, hF⟩ := hall i hi
+  rw [Option.some.inj (hP.symm.trans hP1)]
+  have hp : GoodParties G.q parties :=
+    kg_goodParties_range S.hnq parties hnd (fun k hk => hqlt k (hqh k (hh k hk)))
+  have hf : ∀ j ∈ Q, (fam j).degree < ((t + 1 : Nat) : WithBot Nat) := fun j hj => hdeg j (hqlt j hj)
+  have hx : ∀ k ∈ parties, ((xs k : Int) : ZMod G.q.natAbs) =
+      (Q.map (fun j => (fam j).eval (pt G.q k))).sum := by
+    intro k hk
+    obtain ⟨Pk, hPk, hxk⟩ := hxs k hk
+    obtain ⟨Pk', hPk', hFk⟩ := hall k (hh k hk)
+    rw [hxk, Option.some.inj (hPk.symm.trans hPk'), hFk.x]
+    exact sum_shares_val (G := G) hq Q Pk'.st.s k fam hFk.sfam
+  obtain ⟨v, hv, -, hgv⟩ := interpolate_secret hG Q t fam hf parties hp hlen xs hx
+    (fun j => (((fam j).eval 0).val : Int)) (fun j _ => by simp)
+  obtain ⟨hd, he⟩ := pl_listSum_poly Q fam t hf
+  rw [← hlen] at hd
+  obtain ⟨v', hv', v0, v1, -⟩ := lagrange0_val (q := G.q) hq parties hp ((Q.map fam).sum) hd xs
+    (fun k hk => by rw [hx k hk, he])
+  rw [hv] at hv'
+  have hvv := Option.some.inj hv'
+  subst hvv
+  refine ⟨v, hv, v0, v1, ?_⟩
+  rw [hgv, key_val S fam Q Afl hqlt hfeld i P1 hF]
+  congr 1
+  apply List.map_congr_left
+  intro j _
+  rw [zpow_natCast]
 
 end Tmcg.DkgP
